@@ -171,7 +171,10 @@ def _work(chunk):
     out = []
     stats = {'worlds': 0, 'requests': 0}
     for impl, cfg, cred, cases in chunk:
-        run_cases(impl, cfg, cred, cases, out, stats)
+        try:
+            run_cases(impl, cfg, cred, cases, out, stats)
+        except report.Livelock as e:
+            out.append(report.livelock_violation(impl, e, {'impl': impl, 'cfg': cfg, 'cred': cred, 'case': list(cases[0])}))
     return [v.to_json() for v in out[:300]], stats, len(out)
 
 
